@@ -1,7 +1,9 @@
 package props
 
 import (
+	"encoding/json"
 	"fmt"
+	"math/big"
 	"os"
 	"sort"
 	"strings"
@@ -370,13 +372,8 @@ func containsNonEmpty(path string, want, got any) string {
 			return fmt.Sprintf("%s: want %s, got %s", path, jsonv.Text(want), jsonv.Text(got))
 		}
 		for i := range w {
-			if !jsonv.Equal(flattenAdditional(w[i]), g[i]) {
-				if d := containsNonEmpty(fmt.Sprintf("%s[%d]", path, i), w[i], g[i]); d != "" {
-					return d
-				}
-				if isEmptyValue(w[i]) && !jsonv.Equal(w[i], g[i]) {
-					return fmt.Sprintf("%s[%d]: want %s, got %s", path, i, jsonv.Text(w[i]), jsonv.Text(g[i]))
-				}
+			if d := containsNonEmpty(fmt.Sprintf("%s[%d]", path, i), w[i], g[i]); d != "" {
+				return d
 			}
 		}
 		return ""
@@ -391,6 +388,21 @@ func containsNonEmpty(path string, want, got any) string {
 var valueDeviations = map[string]func(m *refmodel.Model, sc *SCase, d refmodel.Doc, want, got any, diff string) bool{}
 
 func valueDeviation(name string, m *refmodel.Model, sc *SCase, d refmodel.Doc, want, got any, diff string) bool {
+	// model-driven: does the expectation under this deviation equal the observation?
+	m.Dev = map[string]bool{name: true}
+	m.Fired = map[string]bool{}
+	want2 := m.Expect(d.V)
+	fired := len(m.Fired) > 0
+	m.Dev = map[string]bool{}
+	if fired {
+		if strings.Contains(diff, "re-marshal") {
+			if containsNonEmpty("$", flattenAdditional(want2), got) == "" {
+				return true
+			}
+		} else if jsonv.Diff("$", want2, got) == "" {
+			return true
+		}
+	}
 	if f, ok := valueDeviations[name]; ok {
 		return f(m, sc, d, want, got, diff)
 	}
@@ -418,4 +430,31 @@ func coarseClass(c string) string {
 
 func jsonvDiffWithout(want, got any, key string) string {
 	return jsonv.Diff("$", dropKey(want, key), dropKey(got, key))
+}
+
+func jsonNumber(s string) any { return json.Number(s) }
+
+func jsonvRat(v any) (*big.Rat, bool) { return jsonv.Rat(v) }
+
+// jsonvDiffMapped diffs after mapping the scalar leaves of want through f (used to state what the current implementation yields).
+func jsonvDiffMapped(want, got any, f func(path string, w any) any) string {
+	var mp func(path string, v any) any
+	mp = func(path string, v any) any {
+		switch x := v.(type) {
+		case map[string]any:
+			o := map[string]any{}
+			for k, e := range x {
+				o[k] = mp(path+"."+k, e)
+			}
+			return o
+		case []any:
+			o := make([]any, len(x))
+			for i := range x {
+				o[i] = mp(fmt.Sprintf("%s[%d]", path, i), x[i])
+			}
+			return o
+		}
+		return f(path, v)
+	}
+	return jsonv.Diff("$", mp("$", want), got)
 }
